@@ -76,49 +76,49 @@ func (c capRef) String() string {
 
 // bq: a question B asked A.
 type bq struct {
-	id       uint32
-	kind     string // boot call pcall fwd
-	serial   uint64
-	flags    uint64
-	sentIdx  int
-	dep      *bq      // pcall: the answer it is pipelined on
-	path     []uint16 // pcall
-	direct   uint32   // call/fwd: export id addressed
-	param    capRef   // capability in params pointer 0
-	dest     int      // object id, or objNone/objBcap/objLoose; resolved lazily for pcalls on pending answers
-	destBid  uint32
-	resolved bool
-	opened   bool
-	finished bool
-	rrc      bool
-	returned bool
-	ret      rpcsim.Msg
-	retRefs  map[uint32]int // senderHosted descriptors in the Return
-	retObjs  []int          // objects named by the Return's descriptors (kept alive by the answer until Finish)
-	fwdOf    *aq
-	loose    bool
-	cancelled bool  // Finish was sent before the Return arrived: the call may or may not have completed
-	key      string // the reference the call was made on: E<export> or P<question#>/<path>
-	retAt    int    // B's send counter when the Return arrived
+	id        uint32
+	kind      string // boot call pcall fwd
+	serial    uint64
+	flags     uint64
+	sentIdx   int
+	dep       *bq      // pcall: the answer it is pipelined on
+	path      []uint16 // pcall
+	direct    uint32   // call/fwd: export id addressed
+	param     capRef   // capability in params pointer 0
+	dest      int      // object id, or objNone/objBcap/objLoose; resolved lazily for pcalls on pending answers
+	destBid   uint32
+	resolved  bool
+	opened    bool
+	finished  bool
+	rrc       bool
+	returned  bool
+	ret       rpcsim.Msg
+	retRefs   map[uint32]int // senderHosted descriptors in the Return
+	retObjs   []int          // objects named by the Return's descriptors (kept alive by the answer until Finish)
+	fwdOf     *aq
+	loose     bool
+	cancelled bool   // Finish was sent before the Return arrived: the call may or may not have completed
+	key       string // the reference the call was made on: E<export> or P<question#>/<path>
+	retAt     int    // B's send counter when the Return arrived
 }
 
 func (q *bq) held() bool { return q.flags&rpcsim.FlagHold != 0 }
 
 // aq: a question A asked B.
 type aq struct {
-	id        uint32
-	kind      string // boot call
-	serial    uint64
-	flags     uint64
-	msg       rpcsim.Msg
-	arrival   int
-	returned  bool
+	id         uint32
+	kind       string // boot call
+	serial     uint64
+	flags      uint64
+	msg        rpcsim.Msg
+	arrival    int
+	returned   bool
 	finishSeen bool
-	finishRRC bool
-	retCaps   []capRef // per result pointer (index 0 = content for boot)
-	retBids   map[uint32]int
-	exc       bool
-	params    map[uint32]int // senderHosted descriptors in the params
+	finishRRC  bool
+	retCaps    []capRef // per result pointer (index 0 = content for boot)
+	retBids    map[uint32]int
+	exc        bool
+	params     map[uint32]int // senderHosted descriptors in the params
 	// destination as B resolves it
 	destKnown bool
 	dest      capRef
@@ -135,9 +135,9 @@ type aq struct {
 type appClient struct {
 	idx      int
 	c        *capnp.Client
-	boot     *aq     // bootstrap question (nil for getcap)
-	bootIdx  int     // n-th Bootstrap issued
-	ref      capRef  // for getcap clients: what the pointer named
+	boot     *aq    // bootstrap question (nil for getcap)
+	bootIdx  int    // n-th Bootstrap issued
+	ref      capRef // for getcap clients: what the pointer named
 	from     *appCall
 	field    int
 	embargo  *embargo
@@ -145,28 +145,28 @@ type appClient struct {
 }
 
 type appCall struct {
-	idx      int
-	serial   uint64
-	flags    uint64
-	ans      *capnp.Answer // use answer()
-	rel      capnp.ReleaseFunc
-	pending  chan struct{} // non-nil: the call was issued on a goroutine (calls on an embargoed capability block)
-	cancel   context.CancelFunc
+	idx       int
+	serial    uint64
+	flags     uint64
+	ans       *capnp.Answer // use answer()
+	rel       capnp.ReleaseFunc
+	pending   chan struct{} // non-nil: the call was issued on a goroutine (calls on an embargoed capability block)
+	cancel    context.CancelFunc
 	cancelled bool
-	either   bool // the object the call runs on may be shut down under it: it may succeed or be cancelled
-	released bool
-	q        *aq // set when B sees the Call
+	either    bool // the object the call runs on may be shut down under it: it may succeed or be cancelled
+	released  bool
+	q         *aq // set when B sees the Call
 	// expectation fixed when the call is issued
-	wantWire  bool   // a Call message must reach B
-	wantDest  capRef // if known at issue time
-	wantPend  *aq
-	wantPath  []uint16
-	localObj  int // >= 0: delivered inside A to this object (no wire traffic)
-	localEmb  *embargo
-	errOnly   bool // the target is broken: the answer must be an error, nothing is delivered
-	paramObj  int  // local object passed in params (-1 none)
-	paramBid  int64
-	key       string // the reference the call was made on
+	wantWire        bool   // a Call message must reach B
+	wantDest        capRef // if known at issue time
+	wantPend        *aq
+	wantPath        []uint16
+	localObj        int // >= 0: delivered inside A to this object (no wire traffic)
+	localEmb        *embargo
+	errOnly         bool // the target is broken: the answer must be an error, nothing is delivered
+	paramObj        int  // local object passed in params (-1 none)
+	paramBid        int64
+	key             string // the reference the call was made on
 	resolvedChecked bool
 }
 
@@ -191,6 +191,17 @@ type embargo struct {
 	echoed bool
 }
 
+// peerEmbargo: B pipelined calls on one of its questions, A's Return named one of B's own capabilities there; B sends
+// Disembargo(senderLoopback) and A must echo it after the calls it forwarded.
+type peerEmbargo struct {
+	q       *bq
+	path    []uint16
+	bid     uint32
+	id      uint32
+	sentIdx int
+	echoed  bool
+}
+
 type expEnt struct {
 	obj  int
 	refs int
@@ -209,38 +220,39 @@ type engine struct {
 	aborted bool
 
 	// B side
-	nextQ    uint32
-	freeQ    []uint32
-	bqs      map[uint32]*bq
-	allB     []*bq
-	bySerial map[uint64]*bq
-	serial   uint64
-	sentIdx  int
-	exports  map[uint32]*expEnt
-	nextBid  uint32
-	bout     map[uint32]int // outstanding references A holds on B's capability (descriptors sent - released)
-	bsent    map[uint32]int
-	aqs      map[uint32]*aq
-	allA     []*aq
-	arrival  int
-	bootsSeen int
-	marker   uint32
-	embargoes []*embargo
+	nextQ         uint32
+	freeQ         []uint32
+	bqs           map[uint32]*bq
+	allB          []*bq
+	bySerial      map[uint64]*bq
+	serial        uint64
+	sentIdx       int
+	exports       map[uint32]*expEnt
+	nextBid       uint32
+	bout          map[uint32]int // outstanding references A holds on B's capability (descriptors sent - released)
+	bsent         map[uint32]int
+	aqs           map[uint32]*aq
+	allA          []*aq
+	arrival       int
+	bootsSeen     int
+	marker        uint32
+	embargoes     []*embargo
+	peerEmbargoes []*peerEmbargo
 
 	// application side
-	clients []*appClient
-	calls   []*appCall
-	appSer  map[uint64]*appCall
-	nboots  int
-	objNew  map[uint64]int // serial -> object created
+	clients   []*appClient
+	calls     []*appCall
+	appSer    map[uint64]*appCall
+	nboots    int
+	objNew    map[uint64]int // serial -> object created
 	delivered map[uint64]int // serial -> object
-	closed  bool
-	stats   map[string]int
+	closed    bool
+	stats     map[string]int
 	unsettled map[uint32]int // descriptors of B's capabilities sent since the last quiescent point (A may not have seen them yet)
-	blocked *appCall // the application thread is inside a call on an embargoed capability
+	blocked   *appCall       // the application thread is inside a call on an embargoed capability
 	openedSer map[uint64]bool
-	called  map[*aq][][]uint16
-	appObj  map[int]bool
+	called    map[*aq][][]uint16
+	appObj    map[int]bool
 }
 
 func (e *engine) logf(format string, args ...interface{}) {
@@ -436,6 +448,34 @@ func (e *engine) onMsg(m rpcsim.Msg) error {
 		e.stats["import-releases"]++
 		return nil
 	case "disembargo":
+		if m.DisCtx == "receiverLoopback" {
+			// the echo of a Disembargo B sent for one of its own capabilities that A returned to it
+			for _, pe := range e.peerEmbargoes {
+				if pe.id == m.DisID && !pe.echoed {
+					if m.TargetKind != "import" || m.TargetID != pe.bid {
+						return e.fail("embargo/echo-target", "A echoed Disembargo %d for %s; it must address B's capability %d", m.DisID, m.String(), pe.bid)
+					}
+					// every call B pipelined on that path before the Disembargo must have been forwarded to B first
+					for _, q := range e.allB {
+						if q.kind == "pcall" && q.dep == pe.q && samePath(q.path, pe.path) && q.sentIdx < pe.sentIdx && !q.loose && !q.finished {
+							bounced := false
+							for _, a := range e.allA {
+								if a.bounceOf == q {
+									bounced = true
+								}
+							}
+							if !bounced {
+								return e.fail("embargo/echo-before-forwarded-calls", "A echoed Disembargo %d before forwarding call %d, which B had pipelined on the same path earlier: B would deliver later calls ahead of it", m.DisID, q.serial)
+							}
+						}
+					}
+					pe.echoed = true
+					e.stats["peer-disembargo-echoed"]++
+					return nil
+				}
+			}
+			return e.fail("embargo/unexpected-echo", "A sent %s, which answers no Disembargo of B", m.String())
+		}
 		if m.DisCtx != "senderLoopback" {
 			return e.fail("conformance/disembargo", "unexpected Disembargo from A: %s", m.String())
 		}
@@ -1045,6 +1085,14 @@ func (e *engine) settle() error {
 			for _, em := range e.embargoes {
 				if !em.seen && !em.q.finishSeen {
 					missing = fmt.Sprintf("Disembargo for question %d path %v (resolved to A's own export %d after pipelined calls)", em.q.id, em.path, em.exp)
+					break
+				}
+			}
+		}
+		if missing == "" {
+			for _, pe := range e.peerEmbargoes {
+				if !pe.echoed {
+					missing = fmt.Sprintf("echo of B's Disembargo %d (question %d path %v)", pe.id, pe.q.id, pe.path)
 					break
 				}
 			}
